@@ -92,6 +92,26 @@ def one_case(ctx, case: dict):
                 return
             got = read_all(d / out_name, tags, cache_mb=case['cache_mb'])
             trace_locate(ctx, d / out_name, len(concat))
+            if got == concat and case.get('remerge'):
+                # the same output path is used again in the same process: the merged store is taken apart (directory removed), a
+                # DIFFERENT list of inputs (one more store in front, the old ones rebuilt) is merged to the same path and opened
+                import shutil as _sh
+
+                _sh.rmtree(d / out_name)
+                extra = {'name': 'zz_extra.nc', 'indexed': stores[0].get('indexed', False),
+                         'adds': [dict(a, tag=a['tag'] + 5000, fid=(None if a['fid'] is None else a['fid'] + 70000)) for a in stores[-1]['adds'][:2]] or
+                                 [{'op': 'add', 'tag': 5999, 'npts': 5, 'fid': (70001 if stores[0].get('indexed') else None)}]}
+                stores2 = [extra] + stores
+                tags2 = build_inputs(d, stores2)
+                res2 = do_merge(d, out_name, [s_['name'] for s_ in stores2])
+                concat2 = [f"t{a['tag']}" for s_ in stores2 for a in s_['adds']]
+                got2 = read_all(d / out_name, tags2, cache_mb=case['cache_mb']) if res2 == 'ok' else res2
+                ctx.count('remerge_same_path')
+                if got2 != concat2:
+                    ctx.clause_fail('merged_get_eq_concat', {**case, 'second_merge_inputs': [s_['name'] for s_ in stores2], 'impl': got2, 'expected': concat2},
+                                    detail='a second merge to the same output path (after the first merged store was removed) does not '
+                                           'give the concatenation of ITS inputs')
+                    return
             if got != concat:
                 ctx.clause_fail('merged_get_eq_concat', {**case, 'impl': got, 'expected': concat},
                                 detail='trajectories of the merged store differ from the concatenation of the inputs')
@@ -444,7 +464,7 @@ def gen_case_plain(rng):
         stores[j]['indexed'] = not indexed
         for n, a in enumerate(stores[j]['adds']):
             a['fid'] = None if indexed else 5000 + 10 * j + n
-    return {'stores': stores, 'mode': mode, 'cache_mb': int(rng.choice([1, 64])), 'variant': variant,
+    return {'stores': stores, 'mode': mode, 'cache_mb': int(rng.choice([1, 64])), 'variant': variant, 'remerge': bool(variant == 'ok' and mode == 'list' and rng.random() < 0.3),
             'pattern': [fmt, [lo, lo + k - 1]], 'resplit': bool(variant == 'assoc' and rng.random() < 0.6)}
 
 
@@ -469,7 +489,7 @@ def replay(ctx, path):
     aeic_setup()
     j = json.loads(open(path).read())
     case = j.get('first', j).get('case', j)
-    case = {k: case[k] for k in ('stores', 'mode', 'cache_mb', 'variant', 'pattern', 'resplit') if k in case}
+    case = {k: case[k] for k in ('stores', 'mode', 'cache_mb', 'variant', 'pattern', 'resplit', 'remerge') if k in case}
     one_case(ctx, case)
     for v in ctx.violations:
         print('REPLAY-FAIL', v['clause'], v['detail'])
